@@ -12,15 +12,9 @@ theorem inLang_star_cons {F : Follow} {p : Abs} {l l' : List Sym} (h1 : InLang F
   have hcr : ∀ q ∈ cross p ⟨true, p.f, p.l⟩, q ∈ F := hc
   refine inLang_weaken (inLang_append h1 h2 hcr) (fun _ => rfl) ?_ ?_
   · intro x hx
-    simp only [Abs.seq, List.mem_append] at hx
-    rcases hx with hx | hx
-    · exact hx
-    · split at hx
-      · exact hx
-      · simp at hx
+    rcases mem_seq_f.mp hx with hx | ⟨_, hx⟩ <;> exact hx
   · intro x hx
-    simp only [Abs.seq, List.mem_append, if_true] at hx
-    rcases hx with hx | hx <;> exact hx
+    rcases mem_seq_l.mp hx with hx | ⟨_, hx⟩ <;> exact hx
 
 section
 variable {cfg : Cfg σ} {cx : Ctx} (hc : TypedCfg cfg cx) (F : Follow)
@@ -102,9 +96,20 @@ omit hc in
 theorem litTable_commas : (litTable.all fun t => !(t.toList.all (· == ',')) || t == ",") = true := by decide +kernel
 
 omit hc in
+theorem idxIn_mem (s : String) : ∀ (l : List String) (i j : Nat), idxIn s l i = some j → s ∈ l
+  | [], _, _, h => by simp [idxIn] at h
+  | t :: ts, i, j, h => by
+    simp only [idxIn] at h
+    split at h
+    · rename_i ht
+      have : t = s := by simpa using ht
+      simp [this]
+    · exact List.mem_cons_of_mem _ (idxIn_mem s ts (i + 1) j h)
+
+omit hc in
 /-- the text of an ElisionToken is one comma (an exact punctuator) or several -/
 theorem sig_strMul_comma (n : Int) (hn : 1 ≤ n) :
-    sig (strMul "," n) = .lit "," ∨ sig (strMul "," n) = .commas := by
+    sig (strMul "," n) = mkLit "," ∨ sig (strMul "," n) = .commas := by
   obtain ⟨m, hm⟩ : ∃ m : Nat, n.toNat = m + 1 := ⟨n.toNat - 1, by omega⟩
   have hl : (strMul "," n).toList = ',' :: List.replicate m ',' := by
     have h0 : (",".toList) = [','] := by decide
@@ -114,15 +119,17 @@ theorem sig_strMul_comma (n : Int) (hn : 1 ≤ n) :
   have hall : (strMul "," n).toList.all (· == ',') = true := by
     rw [hl]; simp
   unfold sig
-  by_cases hct : litTable.contains (strMul "," n) = true
-  · rw [if_pos hct]
+  cases hidx : litIdx (strMul "," n) with
+  | some i =>
     left
-    have hmem : strMul "," n ∈ litTable := by simpa using hct
+    have hmem : strMul "," n ∈ litTable := idxIn_mem _ _ _ _ hidx
     have := List.all_eq_true.mp litTable_commas _ hmem
     simp only [hall, Bool.not_true, Bool.false_or, beq_iff_eq] at this
-    rw [this]
-  · rw [if_neg hct]
+    rw [this] at hidx
+    simp only [mkLit, hidx]
+  | none =>
     right
+    simp only
     rw [hl]
     simp [sigChars, isDigit]
 
